@@ -78,7 +78,8 @@ func (r *Reader) readSecondStage(bufMeta []bufferMeta) (rb []byte, err error) {
 
 			// rb = append(rb, rbTemp...)
 			if (rbCursor + len(rbTemp)) > totalDatalen {
-				totalDatalen += totalDatalen
+				// the size estimate was too small (highly compressible data): grow enough to hold this interval
+				totalDatalen = 2 * (rbCursor + len(rbTemp))
 				rb2 := make([]byte, totalDatalen)
 				copy(rb2[:rbCursor], rb[:rbCursor])
 				rb = rb2
